@@ -754,6 +754,47 @@ def d10_characters_by_literal(chk: Check) -> None:
         raise AnalysisError("character tests in the parsers: {}".format(n))
 
 
+def d11_aoh_is_a_universal_test(chk: Check) -> None:
+    """"Array-of-Hashes" means *every* element is a Hash (or null, where
+    nulls are accepted) -- a universal statement, true of the empty list.
+    The keyword searches rely on that: they try the Array-of-Hashes arm
+    first and the plain-list arm, which refuses a key-name parameter,
+    second.  If the test demands at least one Hash, `[max(price)]` over an
+    empty (or all-null) `items` list raises "cannot utilize a key name"
+    instead of selecting nothing, and a sweep over many such lists aborts
+    at the first empty one."""
+    prog = chk.prog
+    chk.rule("C13-D11", "Nodes.node_is_aoh answers True when no element "
+             "fails the test (the return after the element loop is the "
+             "constant True, or an all() over the elements)", floor=1)
+    fi = prog.func("Nodes.node_is_aoh")
+    loops = [l for l in fi.node.body if isinstance(l, ast.For)]
+    after = []
+    if loops:
+        idx = fi.node.body.index(loops[-1])
+        after = [r for st in fi.node.body[idx + 1:] for r in ast.walk(st)
+                 if isinstance(r, ast.Return)]
+    else:
+        after = [r for r in fi.node.body if isinstance(r, ast.Return) and
+                 isinstance(r.value, ast.Call) and
+                 src(r.value.func) == "all"]
+    if not after:
+        raise AnalysisError("final verdict of node_is_aoh not found")
+    for r in after:
+        text = "node_is_aoh: `{}`".format(src(r))
+        v = r.value
+        if (isinstance(v, ast.Constant) and v.value is True) or (
+                isinstance(v, ast.Call) and src(v.func) == "all"):
+            chk.ok("C13-D11", fi, r, text, "true of the empty list")
+        else:
+            chk.fail("C13-D11", fi, r, text,
+                     "the verdict after the element loop is not "
+                     "unconditionally True: a list without any Hash (empty, "
+                     "or nulls only) stops being an Array-of-Hashes, and "
+                     "max/min/unique/distinct with a key name refuse it "
+                     "instead of selecting nothing")
+
+
 def run(chk: Check) -> None:
     d1_routing(chk)
     d2_extremes(chk)
@@ -765,3 +806,4 @@ def run(chk: Check) -> None:
     d8_refusal_only_for_scalars(chk)
     d9_sentinel_is_not_a_value(chk)
     d10_characters_by_literal(chk)
+    d11_aoh_is_a_universal_test(chk)
